@@ -5,6 +5,8 @@ id=$1; shift
 d=/verif/seeded/$id
 git -C /repo diff --quiet || { echo "/repo is not clean"; exit 2; }
 git -C /repo apply $d/patch.diff || exit 2
+# evidence written while /repo is patched must not stay in the tree
+bk=$(mktemp -d /tmp/evidence_bk.XXXXXX); cp -a /verif/evidence/. $bk/
 : > $d/result.txt
 for p in "$@"; do
   s=$(date +%s)
@@ -13,3 +15,4 @@ for p in "$@"; do
   echo "$p exit=$rc $(( $(date +%s) - s ))s $(grep -c '^VIOLATION' $d/out_$p.txt) violation line(s): $(grep '^VIOLATION' $d/out_$p.txt | head -1)" | tee -a $d/result.txt
 done
 git -C /repo checkout -- .
+cp -a $bk/. /verif/evidence/; rm -rf $bk
